@@ -218,7 +218,9 @@ def pretty_backend(tier, seed):
         ob("rewrite rule is within the supported idioms", False, str(e), status='unknown')
         return obs, dict(extraction_failed=str(e))
     for nm, ok in info['structure']:
-        ob("structure: " + nm, ok)
+        # a shape outside the recognised rewrite is not by itself a violation: undecided here; the generated-document
+        # companion (pretty_bounded) reports the violation when the real function shows one
+        ob("structure: " + nm, ok, status=None if ok else 'unknown')
     alphabet = alphabet_for(info)
     try:
         code = code_insert_dfa(info, alphabet)
@@ -254,20 +256,51 @@ def pretty_backend(tier, seed):
         ob(nm, False, "witness line (marks: # correct gap, @ code's insertion): %r" % w, solver='dfa', replay=rep)
     # (3) call sites pass json.dumps(..., indent=4) output and nothing else
     mod = lookup_qualname(PM + "main").module
-    bad_sites = []
+    bad_sites, unknown_sites = [], []
     nsites = 0
-    for n in ast.walk(mod.tree):
-        if isinstance(n, ast.Call) and getattr(n.func, 'id', None) == 'prettyPrint':
-            nsites += 1
-            a = n.args[0] if n.args else None
-            ok = isinstance(a, ast.Call) and isinstance(a.func, ast.Attribute) and a.func.attr == 'dumps' and \
-                getattr(a.func.value, 'id', None) == 'json' and \
-                any(k.arg == 'indent' and isinstance(k.value, ast.Constant) and k.value.value == 4 for k in a.keywords) and \
+
+    def classify(a):
+        """'ok': json.dumps(x, indent=4) with default separators / escaping; 'bad': json.dumps with other settings;
+        'unknown': anything else"""
+        if isinstance(a, ast.Call) and isinstance(a.func, ast.Attribute) and a.func.attr == 'dumps' and \
+                getattr(a.func.value, 'id', None) == 'json':
+            good = any(k.arg == 'indent' and isinstance(k.value, ast.Constant) and k.value.value == 4 for k in a.keywords) and \
                 not any(k.arg in ('separators', 'ensure_ascii') for k in a.keywords)
-            if not ok:
-                bad_sites.append(n.lineno)
-    ob("call sites (%d) pass json.dumps(x, indent=4) output with default separators/escaping" % nsites, not bad_sites and nsites > 0,
-       "lines %r" % bad_sites)
+            return 'ok' if good else 'bad'
+        return 'unknown'
+    funcs = [f for f in ast.walk(mod.tree) if isinstance(f, (ast.FunctionDef, ast.AsyncFunctionDef))]
+    for f in funcs:
+        for n in ast.walk(f):
+            if isinstance(n, ast.Call) and getattr(n.func, 'id', None) == 'prettyPrint':
+                if any(n is not m and isinstance(m, (ast.FunctionDef, ast.AsyncFunctionDef)) and n in ast.walk(m) and m is not f
+                       for m in ast.walk(f)):
+                    continue          # belongs to a nested function: counted there
+                nsites += 1
+                a = n.args[0] if n.args else None
+                kind = classify(a)
+                if kind == 'unknown' and isinstance(a, ast.Name):
+                    # a local that is only ever assigned such a json.dumps result in this function
+                    rhs = [st.value for st in ast.walk(f) if isinstance(st, ast.Assign) and
+                           any(isinstance(t, ast.Name) and t.id == a.id for t in st.targets)]
+                    others = [st for st in ast.walk(f) if isinstance(st, (ast.AugAssign, ast.AnnAssign, ast.For, ast.With)) and
+                              any(isinstance(x, ast.Name) and x.id == a.id and isinstance(x.ctx, ast.Store) for x in ast.walk(st))]
+                    kinds = [classify(r) for r in rhs]
+                    if rhs and not others and all(k == 'ok' for k in kinds):
+                        kind = 'ok'
+                    elif 'bad' in kinds:
+                        kind = 'bad'
+                if kind == 'bad':
+                    bad_sites.append(n.lineno)
+                elif kind == 'unknown':
+                    unknown_sites.append(n.lineno)
+    nm = "call sites (%d) pass json.dumps(x, indent=4) output with default separators/escaping" % nsites
+    if bad_sites or nsites == 0:
+        ob(nm, False, "json.dumps with other separators / escaping at lines %r: the line grammar assumed by the position lemma "
+           "does not apply" % bad_sites, status='unknown')
+    elif unknown_sites:
+        ob(nm, False, "call sites outside the recognised idioms at lines %r" % unknown_sites, status='unknown')
+    else:
+        ob(nm, True, "")
     return obs, dict(alphabet=alphabet, rewrite_rule=dict(guards=[list(g) for g in info['guards']], position=list(info['pos'])))
 
 
@@ -295,7 +328,8 @@ def pretty_bounded(tier, seed):
     from pel.peltool.peltool import prettyPrint
     t0 = time.time()
     rng = random.Random(seed)
-    atoms = ['"', '\\', ':', '{', '}', ' ', 'a', 'é', '":', '\\":', '\\', '[', ',', '\n', ' ', "'", '": ', 'x"y']
+    atoms = ['"', '\\', ':', '{', '}', ' ', 'a', 'é', '":', '\\":', '\\', '[', ',', '\n', ' ', "'", '": ', 'x"y',
+             '\u2028', '\u2029', '\x85', '\t', '\r', '\x0b', '\x0c', '\x1c', '\\n', '\\g<0>', '\\1']
     keyline = re.compile(r'^ *"(?:[^"\\]|\\.)*": (?:"(?:[^"\\]|\\.)*"|[-+.0-9a-zA-Z]+|\{|\[|\{\}|\[\]),?$')
     elemline = re.compile(r'^ *(?:"(?:[^"\\]|\\.)*"|[-+.0-9a-zA-Z]+|\{|\[|\{\}|\[\]|\}|\]),?$')
 
@@ -331,7 +365,61 @@ def pretty_bounded(tier, seed):
                 bad_r = dict(doc=doc, error=str(e), printed=out[:300])
         if bad_g or bad_r:
             break
-    obs = [dict(name="assumed line grammar of json.dumps(indent=4) (bounded)", kind='B', solver='bounded', evaluations=n,
+    # ---- through the real call site: PELs whose JSON / text user data carry the awkward characters, decoded by parsePEL; the
+    # printed text must parse back to what the same decode yields with the alignment pass switched off
+    bad_c = None
+    ncs = 0
+    try:
+        from contracts import pelgen
+        from pel.peltool import peltool as _pt
+        from pel.peltool.config import Config
+        from pel.datastream import DataStream
+        import io, contextlib
+
+        def decode(data, identity):
+            saved = _pt.prettyPrint
+            if identity:
+                _pt.prettyPrint = lambda text, *a, **k: text
+            try:
+                c = Config()
+                c.every_pel = True
+                err = io.StringIO()
+                with contextlib.redirect_stderr(err), contextlib.redirect_stdout(err):
+                    return _pt.parsePEL(DataStream(data, byte_order='big', is_signed=False), c, False)[1]
+            finally:
+                _pt.prettyPrint = saved
+        for _ in range(300 if tier == 'quick' else 3000):
+            doc = {rstr() or "k": rval(1) for _k in range(rng.randrange(1, 3))}
+            pay = json.dumps(doc, ensure_ascii=bool(rng.randrange(2))).encode() + b'\0' * rng.randrange(0, 3)
+            txt = ''.join(rng.choice(atoms + ['line', '\n']) for _k in range(rng.randrange(0, 8))).encode('utf-8', 'replace')
+            secs = [pelgen.hdr(b'UD', 8 + len(pay), sub=1, comp=0x2000) + pay]
+            if txt.strip():
+                secs.append(pelgen.hdr(b'UD', 8 + len(txt), sub=3, comp=0x2000) + txt)
+            data = pelgen.gen_ph(rng, 2 + len(secs), creator=ord('O')) + pelgen.gen_uh(rng) + b''.join(secs)
+            ncs += 1
+            try:
+                plain, printed = decode(data, True), decode(data, False)
+                want = json.loads(plain)
+            except Exception as e:
+                continue          # the decode itself (not the printing) failed or is not JSON: other properties
+            try:
+                got = json.loads(printed)
+            except Exception as e:
+                bad_c = dict(pel=data.hex(), error="printed text is not JSON: %s" % e, printed=printed[:300])
+                break
+            if got != want:
+                bad_c = dict(pel=data.hex(), printed=printed[:300], note="printed text parses to a different document")
+                break
+    except Exception as e:
+        import traceback as _tb
+        if '/verif/' in (_tb.extract_tb(e.__traceback__)[-1].filename or ''):
+            raise
+        bad_c = dict(error="decode raised %s: %s" % (type(e).__name__, e))
+    obs = [dict(name="printed text of decoded PELs parses back to the decoded document (through the real call sites, bounded)", kind='B',
+                solver='bounded', evaluations=ncs, status='failed' if bad_c else 'discharged', secs=0.0,
+                bound="%d generated PELs with JSON / text user data carrying quotes, colons, backslashes, line separators" % ncs,
+                replay=dict(kind='custom', reproduced=True, native=bad_c)),
+           dict(name="assumed line grammar of json.dumps(indent=4) (bounded)", kind='B', solver='bounded', evaluations=n,
                 status='failed' if bad_g else 'discharged', secs=0.0, bound="%d generated documents, depth <= 2" % n,
                 replay=dict(kind='custom', reproduced=True, native=bad_g)),
            dict(name="json.loads(prettyPrint(json.dumps(d, indent=4))) == d (bounded)", kind='B', solver='bounded', evaluations=2 * n,
